@@ -37,6 +37,18 @@ def run_real(case):
     if kind == "bin":
         b = (v["x"] - v["start"]) // v["res"]
         return int(toRelativeGenomicPositions(np.array([b]), v["res"], v["start"])[0])
+    if kind == "cpk":   # the per-correlation cut: CorrelationResult.createPeaks over find_peaks-style arrays
+        from src.correlation.optical_map import CorrelationResult
+        scores = v["scores"]
+        n = len(scores)
+        props = {"peak_heights": np.array([float(s) for s in scores]),
+                 "left_ips": np.array([10. * i - 2 for i in range(1, n + 1)]),
+                 "right_ips": np.array([10. * i + 2 for i in range(1, n + 1)])}
+        peaks = CorrelationResult.createPeaks(np.array([10 * i for i in range(1, n + 1)], dtype=int), props, 1, 0, 0,
+                                              v["count"])
+        # position 10*i (resolution 1, start 0: the bin centre is the bin itself) identifies the peak
+        return [int(p.position) // 10 if int(p.position) % 10 == 0 and float(p.height) == float(scores[int(p.position) // 10 - 1])
+                else 0 for p in peaks]
     if kind == "sel":
         # spread the peaks over up to three correlations, keeping the global order of enumeration
         scores = v["scores"]
@@ -75,6 +87,10 @@ def random_case(rng: random.Random):
         res = rng.choice([1, 2, 3, 100, 1400, 1401])
         start = rng.choice([0, -16000, 12345])
         return {"kind": "bin", "vin": {"x": start + rng.randint(0, 50 * res), "res": res, "start": start}}
+    if u < 0.9:
+        n = rng.randint(0, 40)
+        return {"kind": "cpk", "vin": {"scores": [rng.randint(1, 9) if rng.random() < 0.5 else rng.randint(1, 40)
+                                                  for _ in range(n)], "count": rng.choice([1, 3, 3, 10, 10, rng.randint(0, 12)])}}
     n = rng.randint(0, 12)
     return {"kind": "sel", "vin": {"scores": [rng.randint(1, 6) for _ in range(n)], "count": rng.randint(0, 8)}}
 
@@ -127,6 +143,7 @@ def run(ctx: Ctx):
         if (c["kind"] in ("vec", "seq") and isinstance(obs, list) and 0 in obs and 1 in obs) or \
            (c["kind"] == "blur" and 1 in v["v"] and 0 in v["v"] and v["r"] > 0) or \
            (c["kind"] == "bin" and (v["x"] - v["start"]) % v["res"] != 0) or \
+           (c["kind"] == "cpk" and v["count"] < len(v["scores"])) or \
            (c["kind"] == "sel" and len(set(v["scores"])) < len(v["scores"]) and 0 < v["count"] < len(v["scores"])):
             ctx.nontrivial(repr(c))
     verdicts, r = batch.validate("Trace_Vectorise", "Trace_Vectorise.cfg", ctx.workdir, records)
@@ -139,7 +156,7 @@ def run(ctx: Ctx):
             ctx.violation(rec, failed, "", what=f"{rec['kind']} {str(rec['vin'])[:160]} -> {str(rec['obs'])[:80]}")
         elif drift:
             ctx.add_drift(1, rec)
-    for kind in ("vec", "seq", "blur", "sel"):
+    for kind in ("vec", "seq", "blur", "sel", "cpk"):
         ctx.sample(next(x for x in reversed(records) if x["kind"] == kind), limit=4)
     th.join()
     if "err" in mc_res:
